@@ -322,7 +322,38 @@ META["C17"] = {"files": ["value.c", "map.c", "packet.c", "utils.c"], "functions"
                "assumptions": ["exactly one allocation fails per call (or none)", "argument shapes concrete per instance, enumerated"],
                "outside": ["allocations inside SQLite / ICU", "API functions backed by SQLite unless listed", "functions not listed in the queries"]}
 
-REG = {"C17": c17, "C20": c20, "C10": c10, "C18": c18, "C09": c09, "C08": c08, "C14": c14, "C19": c19, "C07": c07}
+
+# ------------------------------------------------------------------------------------------ C05
+SQL_TUS = ["cif.c", "container.c", "loop.c", "pktitr.c", "packet.c", "map.c", "utils.c", "value.c"]
+SQL_EXTRA = ["stubs/icu_str.c", "stubs/icu_norm_cheap.c", "stubs/sqlite_env.c"]
+FN_NAMES = {1: "cif_create_block", 2: "cif_container_create_frame", 3: "cif_container_create_loop", 4: "cif_loop_add_item", 5: "cif_loop_add_packet",
+            6: "cif_container_set_value", 7: "cif_container_remove_item", 8: "cif_loop_set_category", 9: "cif_loop_destroy",
+            10: "cif_container_destroy", 11: "cif_container_prune"}
+
+
+def c05(tier):
+    qs = []
+    inst = [(f, {}) for f in (1, 2, 4, 6, 7, 8, 9, 10, 11)]
+    inst += [(3, {"NNAMES": n}) for n in ((1, 3) if tier == "quick" else (1, 2, 3))]
+    inst += [(5, {"NNAMES": n}) for n in ((1, 2) if tier == "quick" else (1, 2, 3))]
+    for (f, extra) in inst:
+        d = {"FN": f}; d.update(extra)
+        qs.append(Q("C05_tx_%s%s" % (FN_NAMES[f], "".join("_%s" % v for v in extra.values())), "h05_tx.c", defs=d, extra=SQL_EXTRA, libtus=SQL_TUS,
+                    unwind=6, unwindset=VAL_REC + ["memcmp.*:8", "live_stmts.*:31", "teardown.*:31", "strcmp.*:80", "strncmp.*:8", "memset.*:700", "sqlite3_prepare_v2.*:18", "sqlite3_clear_bindings.*:18", "sqlite3_finalize.*:18", "sqlite3_step.*:18"], mode="func",
+                    replay_libs=["-licuio", "-licui18n", "-licuuc", "-licudata"], native_extra=["stubs/icu_norm_cheap.c", "stubs/sqlite_env.c"], object_bits=10, group="h05_tx",
+                    bounds={"function": FN_NAMES[f], "arguments": "concrete valid names/packet %s" % (extra or ""),
+                            "engine": "every outcome sequence of prepare/bind/step/reset/exec/commit within the documented result codes",
+                            "entry state": "autocommit or inside an enclosing transaction (symbolic)"},
+                    note="transaction-frame ledger: nothing dirty survives a failure, no transaction left open, handles only on success"))
+    return qs
+
+
+META["C05"] = {"files": ["cif.c", "container.c", "loop.c", "internal/utils.h"], "functions": list(FN_NAMES.values()),
+               "stubs": ["stubs/sqlite_env.c (transaction stack, dirty marks, statement life cycle, nondeterministic outcomes)", "stubs/icu_str.c", "stubs/icu_norm_cheap.c", "stubs/uthash_model"],
+               "assumptions": ["SQLite's rollback / rollback-to restores the previous content (trusted)", "malloc does not fail here (C17)", "arguments are valid and of a fixed small shape"],
+               "outside": ["failures detected inside SQL (duplicate detection itself)", "that the rolled-back database equals the prior one"]}
+
+REG = {"C05": c05, "C17": c17, "C20": c20, "C10": c10, "C18": c18, "C09": c09, "C08": c08, "C14": c14, "C19": c19, "C07": c07}
 
 
 def for_property(pid, tier):
@@ -401,3 +432,12 @@ MANI["C17"] = {
             "intact, target unchanged or valid, retry succeeds.",
     "note": "value / list / table / packet / normalisation functions only (the calls named in evidence); SQLite-backed API functions and "
             "allocations inside SQLite/ICU are outside; uthash = list model whose table-header allocation can fail like uthash's"}
+MANI["C05"] = {
+    "text": "Bounded model checking of the real C glue of every mutating storage function over a contract-constrained nondeterministic "
+            "SQLite environment: for EVERY sequence of engine outcomes (prepare / bind / step / reset / exec / commit failures at any point) "
+            "and both entry states (autocommit, enclosing transaction): an error return leaves nothing durable and nothing dirty in the "
+            "enclosing transaction, the autocommit state is as found, success closes every frame opened, handles are written only on "
+            "success, dropped statements are finalised exactly once, and a following valid call is not refused.",
+    "note": "SQLite itself is replaced by stubs/sqlite_env.c (transaction stack semantics, dirty marks, statement life cycle); that SQLite's "
+            "rollback restores the content, and errors detected inside SQL (constraints, triggers), are trusted / outside; arguments "
+            "are concrete valid names of a small fixed shape; row-change counts the C code inspects are 0 or 1 (primary-key statements)"}
